@@ -19,7 +19,7 @@ import vlib
 LEVEL = "model_checking"
 
 INF = 1000
-MODEL_INV = ["TypeOK", "ResultsWellFormed", "ResultsComplete", "ResultsExact", "NoPanic", "CoveringOK"]
+MODEL_INV = ["TypeOK", "SceneAdmissible", "ResultsWellFormed", "ResultsComplete", "ResultsExact", "NoPanic", "CoveringOK"]
 
 
 def lattice(n):
@@ -228,11 +228,11 @@ def run(ctx):
         plan = [(3, 1, 33, 0, 1, "cloud"), (2, rnd.choice([2, 3]), 28, 1, 1, None), (2, 6, 45, 2, 2, "line")]
     else:
         plan = []
-        for nf in (1, 1, 2, 2, 3, 4, 5, 6, 6, 6):
+        for nf in (1, 1, 1, 2, 2, 2, 3, 3, 4, 4, 5, 5, 6, 6, 6, 6, 6, 6):
             n = 3 if nf <= 2 else rnd.choice([2, 3])
             plan.append((n, nf, rnd.choice([8, 24, 29, 33, 45, 60]), rnd.randint(0, 2), rnd.randint(0, 2),
                          rnd.choice([None, "cloud", "line"])))
-        for nf in (1, 2, 2, 3, 6):
+        for nf in (1, 1, 2, 2, 3, 4, 6, 6):
             plan.append((3, nf, rnd.choice([26, 31, 40]), 1, 1, rnd.choice(["cloud", "line"])))
     for (n, nf, npts, nl, nt, big) in plan:
         consts = w1_scene(rnd, n, nf, npts, nl, nt, big)
@@ -241,9 +241,10 @@ def run(ctx):
                     workers=8 if q else 12, timeout=900)
         cases += r.tagged.get("CASE", [])
     # W2
-    for (g, nf, rows, bundle) in ([rnd.choice([(3, 3, 1, True), (4, 1, 0, False), (3, 5, 2, True)])] if q else
+    for (g, nf, rows, bundle) in (rnd.sample([(3, 3, 1, True), (4, 1, 0, False), (3, 5, 2, True), (4, 2, 1, True)], 2) if q else
                                   [(3, 1, 2, True), (3, 2, 1, False), (3, 3, 1, True), (4, 2, 1, False), (4, 4, 2, True),
-                                   (3, 6, 2, False), (5, 1, 1, False), (4, 6, 0, True)]):
+                                   (3, 6, 2, False), (5, 1, 1, False), (4, 6, 0, True), (2, 6, 2, True), (4, 3, 3, False),
+                                   (5, 2, 2, True), (3, 4, 0, False)]):
         consts = w2_scene(rnd, g, nf, rows, bundle, nclouds=3 if q else 12)
         r = ctx.tlc("Gen_EdgeQuery", vlib.cfg(init="InitW2", next_="NextW2", constants=consts,
                                               invariants=["EmitW2", "GridLoopsSimple"]), workers=4, timeout=600)
